@@ -27,11 +27,13 @@ def _is_foreign(model, f, it):
                 return 'file ' + it.id
         # a local holding the (materialised) lines of another object
         binds = [v for (_s, v) in assignments_to(f.node, it.id)]
-        if len(binds) == 1 and binds[0] is not None and \
-                not isinstance(binds[0], ast.Name):
-            r = _is_foreign(model, f, binds[0])
-            if r is not None:
-                return r
+        if binds and all(b is not None for b in binds) and \
+                len(binds) <= 3:
+            rs = [_is_foreign(model, f, b) if not (
+                isinstance(b, ast.Name) and b.id == it.id) else None
+                for b in binds]
+            if all(r is not None for r in rs):
+                return ' / '.join(sorted(set(rs)))
         return None
     for c in walk_own(it):
         if isinstance(c, ast.Call) and isinstance(c.func, ast.Attribute) and \
@@ -84,6 +86,32 @@ def check_yield_loops(model, f, res, rule='R-C14-splice'):
         yields = [y for s in lp.body for y in walk_own(s)
                   if isinstance(y, ast.Yield) and isinstance(y.value, ast.Name)
                   and y.value.id == var]
+        # expression form: yield v if v.endswith(nl) else v + nl
+        cond_y = [y for s in lp.body for y in walk_own(s)
+                  if isinstance(y, ast.Yield) and
+                  isinstance(y.value, ast.IfExp)]
+        if cond_y and not yields:
+            n += 1
+            tgt = ast.dump(ast.Name(var, ast.Load()))
+            good = True
+            for y in cond_y:
+                v = y.value
+                t, neg = v.test, False
+                if isinstance(t, ast.UnaryOp) and isinstance(t.op, ast.Not):
+                    neg = True
+                has, lacks = (v.orelse, v.body) if neg else (v.body, v.orelse)
+                good = good and _endswith_nl_guard(
+                    t if neg else ast.UnaryOp(ast.Not(), t), tgt) and \
+                    ast.dump(has) == tgt and isinstance(lacks, ast.BinOp) \
+                    and isinstance(lacks.op, ast.Add) and \
+                    ast.dump(lacks.left) == tgt and \
+                    const_str(lacks.right) in (b'\n', '\n')
+            res.check(good, rule, f.qual, 'spliced lines of ' + src,
+                      'each spliced line is newline-terminated before it is '
+                      'handed on',
+                      'lines of {} are spliced without a line end being '
+                      'supplied'.format(src), f.module.loc(lp))
+            continue
         if not yields:
             continue
         n += 1
